@@ -846,6 +846,11 @@ func ReplaySched(w Witness) int {
 			for _, t := range traceOf(x.Points) {
 				fmt.Println("  ", t)
 			}
+			if os.Getenv("VERIF_TRACE") != "" {
+				for i, p := range x.Points {
+					fmt.Printf("     point %d: enabled %v -> %s\n", i, p.Enabled, p.Label)
+				}
+			}
 			for _, o := range abstractOps(x.Ops) {
 				fmt.Println("  ", o)
 			}
